@@ -31,6 +31,7 @@ import VotelibProofs.Lemmas.ShapeSimple
 import VotelibProofs.Lemmas.ShapeRankedT2
 import VotelibProofs.Lemmas.ShapeSTV
 import VotelibProofs.Lemmas.ShapeCardinal
+import VotelibProofs.Lemmas.ShapeCardinalGraded
 import VotelibProofs.Lemmas.ShapeApprovalPAV
 import VotelibProofs.Lemmas.ShapeQuotaSubtract
 import VotelibProofs.Lemmas.ShapeSequential
